@@ -76,6 +76,15 @@ def used(eng, name):
     eng.assumptions.add("numpy-model:" + name)
 
 
+def _defined(eng, name, kind, n, cell, dtype=None):
+    """a fresh array (a z3 constant) DEFINED cell by cell: out[i] = cell(i) for 0 <= i < n.  Same meaning as the lambda term, but
+    formulas about the result then read a constant array (stable triggers for the quantified clauses of the contracts)."""
+    out = SArr.fresh(kind, n, name=name, dtype=dtype)
+    i = z3.Int(fresh_name("ix"))
+    eng.assume(z3.ForAll([i], z3.Implies(z3.And(i >= 0, i < zint(n)), z3.Select(out.arr, i) == cell(i)), patterns=[z3.Select(out.arr, i)]))
+    return out
+
+
 def np_pad(eng, args, kwargs):
     """np.pad(v, (before, after)) of a 1-D array, mode 'constant' (zeros).  Concrete shapes, or an array of symbolic
     length padded at the END only: np.pad(v, (0, m)) with m an int or a symbolic int (m >= 0 is an obligation: numpy
@@ -97,10 +106,9 @@ def np_pad(eng, args, kwargs):
                 raise ProgExc(ValueError, "index can't contain negative values")
             if not z3.is_true(g):
                 eng.prove(eng.site("pad-width-nonnegative"), m >= 0, "safety", "np.pad raises ValueError for a negative width")
-        i = z3.Int(fresh_name("pi"))
         n = v.nz()
         zero = to_z3(False if v.kind == "bool" else 0, v.kind)
-        return SArr(z3.Lambda([i], z3.If(i < n, z3.Select(v.arr, i), zero)), z3.simplify(n + m), v.kind, name="padded", dtype=v.dtype)
+        return _defined(eng, "padded", v.kind, z3.simplify(n + m), lambda i: z3.If(i < n, z3.Select(v.arr, i), zero), v.dtype)
     raise Unsupported("np.pad on this array")
 
 
@@ -120,8 +128,7 @@ def np_delete(eng, args, kwargs):
             if not eng.branch(eng.sbool(z3.And(jz >= -n, jz < n))):
                 raise ProgExc(IndexError, "np.delete index out of bounds")
         jn = z3.simplify(z3.If(jz < 0, jz + n, jz))
-        i = z3.Int(fresh_name("di"))
-        return SArr(z3.Lambda([i], z3.If(i < jn, z3.Select(v.arr, i), z3.Select(v.arr, i + 1))), z3.simplify(n - 1), v.kind, name="deleted", dtype=v.dtype)
+        return _defined(eng, "deleted", v.kind, z3.simplify(n - 1), lambda i: z3.If(i < jn, z3.Select(v.arr, i), z3.Select(v.arr, i + 1)), v.dtype)
     j, n = idxs[0], v.shape[0]
     items = list(v.items)
     if not isinstance(j, Sym):
